@@ -547,6 +547,9 @@ PROBES = [
     ("fm_assign_other_field", "FieldMatrix<double,2,3> A(0.0); FieldMatrix<int,2,3> B(1); A = B;"),
     ("fm11_pluseq_dynamic", "FieldMatrix<int,1,1> A(0); DynamicMatrix<int> B(1,1,1); A += B; A -= B;"),
     ("fm11_pluseq_fm11", "FieldMatrix<int,1,1> A(0), B(1); A += B; A -= B; A += 2; A -= 1;"),
+    ("ctl_fv2_times_other_scalar", "FieldVector<double,2> x(1.0); std::complex<double> k(2,1); auto z = x * k; auto w = k * x; auto q = x / k;"),
+    ("fv1_times_other_scalar", "FieldVector<double,1> x(1.0); std::complex<double> k(2,1); auto z = x * k; auto w = k * x; auto q = x / k;"),
+    ("ctl_fv1_times_same_scalar", "FieldVector<double,1> x(1.0); FieldVector<double,1> z = x * 2.0; z = 2.0 * x; z = x / 2.0; double d = x * 2.0;"),
 ]
 
 
@@ -558,7 +561,7 @@ def run_probes(ctx):
     def one(pr):
         name, code = pr
         src = os.path.join(gd, "probe_%s.cc" % name)
-        txt = ("#include <config.h>\n#include <dune/common/fvector.hh>\n#include <dune/common/fmatrix.hh>\n#include <dune/common/dynvector.hh>\n"
+        txt = ("#include <config.h>\n#include <complex>\n#include <dune/common/fvector.hh>\n#include <dune/common/fmatrix.hh>\n#include <dune/common/dynvector.hh>\n"
                "#include <dune/common/dynmatrix.hh>\n#include <dune/common/diagonalmatrix.hh>\nusing namespace Dune;\nvoid probe() { %s }\n" % code)
         open(src, "w").write(txt)
         try:
